@@ -31,9 +31,9 @@ def to_tree(postfix: Sequence[Dict[str, Any]]):
             st.append(('var', tk['s'], tk['n'], tk['k']))
         elif t == 'num':
             st.append(('num', tk['s']))
-        elif t in ('neg', 'paren'):
+        elif t in ('neg', 'paren', 'not'):
             st.append((t, st.pop()))
-        elif t in ('bin', 'cmp'):
+        elif t in ('bin', 'cmp', 'bool'):
             b = st.pop()
             a = st.pop()
             st.append((t, tk['s'], a, b))
@@ -57,9 +57,9 @@ def strip_parens(tree):
         return strip_parens(tree[1])
     if k in ('var', 'num'):
         return tree
-    if k == 'neg':
-        return ('neg', strip_parens(tree[1]))
-    if k in ('bin', 'cmp'):
+    if k in ('neg', 'not'):
+        return (k, strip_parens(tree[1]))
+    if k in ('bin', 'cmp', 'bool'):
         return (k, tree[1], strip_parens(tree[2]), strip_parens(tree[3]))
     if k == 'call':
         return ('call', tree[1], tuple(strip_parens(a) for a in tree[2]))
@@ -71,7 +71,8 @@ def strip_parens(tree):
 # -- lexical tokens -----------------------------------------------------------
 # A lexical token is (text, cls); cls drives where a layout may put whitespace.
 
-PREC = {'cond': 1, 'cmp': 2, '+': 3, '-': 3, '*': 4, '/': 4, 'neg': 5, '**': 6}
+# python precedence: conditional < or < and < not < comparison < + - < * / < unary - < **
+PREC = {'cond': 1, 'or': 1.2, 'and': 1.4, 'not': 1.6, 'cmp': 2, '+': 3, '-': 3, '*': 4, '/': 4, 'neg': 5, '**': 6}
 
 
 def term_tokens(kind, name, idx, opts):
@@ -122,13 +123,19 @@ def expr_tokens(tree, names, opts, minprec=0):
             inner = expr_tokens(tree[2], names, opts, 7) + [(op, 'op')] + expr_tokens(tree[3], names, opts, 5)
         else:
             inner = expr_tokens(tree[2], names, opts, p) + [(op, 'op')] + expr_tokens(tree[3], names, opts, p + 1)
+    elif k == 'bool':
+        p = PREC[tree[1]]
+        inner = expr_tokens(tree[2], names, opts, p) + [(tree[1], 'kw')] + expr_tokens(tree[3], names, opts, p + 0.1)
+    elif k == 'not':
+        p = PREC['not']
+        inner = [('not', 'kw')] + expr_tokens(tree[1], names, opts, p)
     elif k == 'cmp':
         p = PREC['cmp']
         inner = expr_tokens(tree[2], names, opts, 3) + [(tree[1], 'op')] + expr_tokens(tree[3], names, opts, 3)
     elif k == 'cond':
         p = PREC['cond']
-        inner = (expr_tokens(tree[1], names, opts, 2) + [('if', 'kw')] + expr_tokens(tree[2], names, opts, 2)
-                 + [('else', 'kw')] + expr_tokens(tree[3], names, opts, 2))
+        inner = (expr_tokens(tree[1], names, opts, 1.2) + [('if', 'kw')] + expr_tokens(tree[2], names, opts, 1.2)
+                 + [('else', 'kw')] + expr_tokens(tree[3], names, opts, 1.2))
     else:
         raise ValueError(k)
     if p < minprec or opts.get('fullparens'):
@@ -247,6 +254,14 @@ def ast_to_tree(node, leaf):
     if isinstance(node, ast.BinOp):
         op = {ast.Add: '+', ast.Sub: '-', ast.Mult: '*', ast.Div: '/', ast.Pow: '**'}[type(node.op)]
         return ('bin', op, ast_to_tree(node.left, leaf), ast_to_tree(node.right, leaf))
+    if isinstance(node, ast.BoolOp):
+        op = 'and' if isinstance(node.op, ast.And) else 'or'
+        acc = ast_to_tree(node.values[0], leaf)   # Python flattens a and b and c: fold to the left-nested tree
+        for v in node.values[1:]:
+            acc = ('bool', op, acc, ast_to_tree(v, leaf))
+        return acc
+    if isinstance(node, ast.UnaryOp) and isinstance(node.op, ast.Not):
+        return ('not', ast_to_tree(node.operand, leaf))
     if isinstance(node, ast.Compare):
         if len(node.ops) != 1:
             raise ValueError('chained comparison')
@@ -270,9 +285,9 @@ def normalise_nums(tree):
         return ('numv', num_value(tree[1]))
     if k == 'var':
         return tree
-    if k in ('neg', 'paren'):
+    if k in ('neg', 'paren', 'not'):
         return (k, normalise_nums(tree[1]))
-    if k in ('bin', 'cmp'):
+    if k in ('bin', 'cmp', 'bool'):
         return (k, tree[1], normalise_nums(tree[2]), normalise_nums(tree[3]))
     if k == 'call':
         return ('call', tree[1], tuple(normalise_nums(a) for a in tree[2]))
